@@ -28,6 +28,11 @@ systemctl/udevadm.
                       --real-bin); what the binary reports as selected/excluded
                       must equal the extracted listing model's answer
                       (ocaml/listing_check.ml ns).
+  C16.cli_modes_agree on the same scenarios the three ways of naming devices —
+                      --all-keyboards, --dev-file <every node> --only-if-keyboard,
+                      --auto-all-keyboards (killed after its first round) — must
+                      list / exclude / select the same devices (the dev-file
+                      comparison under the guards of C16_selection_same).
 
 If `unshare -m true` fails the engine gives no verdict (ok, zero evaluations,
 stats say "skipped")."""
@@ -611,7 +616,12 @@ def rewrite_excludes(rng, spec_path):
     names = [n for n in names_of(text) if n]
     kb = [n for n in names if "eyboard" in n.lower() or "kbd" in n.lower()]
     likely = ["*", "*eyboard*", "?*eyboard*"] + kb + kb + [n[:max(1, len(n) // 2)] + "*" for n in kb] + ["*" + n[len(n) // 2:] for n in kb]
-    pats = [rng.choice(likely)]
+    comma = [n for n in kb if "," in n]       # a value delimiter in the option parser would split these
+    if comma and rng.random() < 0.7:
+        n = rng.choice(comma)
+        pats = [rng.choice([n, n.split(",")[0] + ",*", "*," + n.split(",", 1)[1]])]
+    else:
+        pats = [rng.choice(likely)]
     for _ in range(rng.choice([0, 1, 1, 2])):
         k = rng.random()
         if k < 0.35 and names:
